@@ -11,6 +11,7 @@ CONSTANTS
   OrphanMetaKept = FALSE
   CorruptIgnoresMeta = FALSE
   MayRelease = FALSE
+  GraceTimer = "oracle"
 INVARIANTS CSafe
 
 CHECK_DEADLOCK FALSE
